@@ -9,7 +9,9 @@
 //!                of the same text (diff).  Structural-error mutants (wrong nesting depth, unknown
 //!                type, missing section, duplicate id, duplicate argument) must be rejected.
 //!   `c14-ndl`    mutated texts (token insertion/deletion/truncation, indentation changes with
-//!                tabs / 4 spaces / mixed, CRLF, non-ASCII near the byte-index slices); oracle:
+//!                tabs / 4 spaces / mixed, CRLF, non-ASCII near the byte-index slices, awkward
+//!                code points -- multi-byte blanks etc. -- at every kind of structural boundary:
+//!                `AWKWARD`, `boundaries`, `boundary_sweep`); oracle:
 //!                the outcome is a value or an `Err`, never a panic; outcome class (value /
 //!                error kind / panic site) diffed against the model.
 //!   `c19-run`    semantically valid descriptions built, run on a paused-clock runtime in worker
@@ -562,12 +564,185 @@ fn line_spans(s: &str) -> Vec<(usize, usize)> {
     v
 }
 
+/// "Awkward" code points for the boundary operators: blanks and controls that are ASCII but
+/// neither space, tab nor newline; every multi-byte `White_Space` character of `char::is_whitespace`
+/// (2- and 3-byte UTF-8 forms); invisible non-whitespace (BOM, zero width space, word joiner);
+/// characters whose case folding touches ASCII letters (KELVIN SIGN, dotted I, long s); combining
+/// marks (2 and 3 bytes); characters whose LOW BYTE is space / tab / newline (the lexer's
+/// separator test is `chr as u8`) -- U+2009 and U+200A are both; 4-byte characters.
+const AWKWARD: &[&str] = &[
+    " ", "\t", "\u{B}", "\u{C}", "\r", "\u{1F}", "\u{7F}",
+    "\u{85}", "\u{A0}", "\u{1680}", "\u{2000}", "\u{2003}", "\u{2009}", "\u{200A}", "\u{2028}", "\u{2029}", "\u{202F}", "\u{205F}", "\u{3000}",
+    "\u{FEFF}", "\u{200B}", "\u{2060}",
+    "\u{212A}", "\u{130}", "\u{17F}",
+    "\u{301}", "\u{20DD}",
+    "\u{120}", "\u{10A}", "\u{109}", "\u{2020}",
+    "😀", "\u{10FFFF}",
+];
+
+/// kinds of structural boundaries of a description text (positions are byte offsets of char
+/// starts): text start / end; before and after every `[` and `]`; inside and right after the
+/// type tag; before and after `=`, quotes and the blanks that separate arguments; end and start
+/// of every line; every position of the indentation
+const BOUNDARY_KINDS: &[&str] = &[
+    "text-start", "text-end", "before-open", "after-open", "in-tag", "after-tag", "before-close", "after-close", "before-eq", "after-eq",
+    "before-quote", "after-quote", "arg-sep-before", "arg-sep-after", "line-end", "line-start", "in-indent",
+];
+
+fn boundaries(s: &str) -> Vec<(&'static str, usize)> {
+    let mut v: Vec<(&'static str, usize)> = vec![("text-start", 0), ("text-end", s.len())];
+    let cs: Vec<(usize, char)> = s.char_indices().collect();
+    let at = |k: usize| if k < cs.len() { cs[k].0 } else { s.len() };
+    let (mut in_br, mut in_q, mut indent) = (false, false, true);
+    for k in 0..cs.len() {
+        let (i, c) = cs[k];
+        let next = at(k + 1);
+        let escaped = k > 0 && cs[k - 1].1 == '\\';
+        match c {
+            '[' if !in_q => {
+                v.push(("before-open", i));
+                v.push(("after-open", next));
+                let mut j = k + 1;
+                while j < cs.len() && cs[j].1.is_ascii_alphabetic() {
+                    j += 1;
+                }
+                for t in k + 2..j {
+                    v.push(("in-tag", at(t)));
+                }
+                if j > k + 1 {
+                    v.push(("after-tag", at(j)));
+                }
+                in_br = true;
+            }
+            ']' => {
+                // a `]` always ends the section (`take_until("]")`), quoted or not
+                v.push(("before-close", i));
+                v.push(("after-close", next));
+                in_br = false;
+                in_q = false;
+            }
+            '=' if in_br && !in_q => {
+                v.push(("before-eq", i));
+                v.push(("after-eq", next));
+            }
+            '\'' if in_br && !escaped => {
+                v.push(("before-quote", i));
+                v.push(("after-quote", next));
+                in_q = !in_q;
+            }
+            ' ' | '\t' | '\n' if in_br && !in_q => {
+                v.push(("arg-sep-before", i));
+                v.push(("arg-sep-after", next));
+            }
+            _ => {}
+        }
+        if c == '\n' && !in_br {
+            v.push(("line-end", i));
+            v.push(("line-start", next));
+        }
+        if indent && (c == '\t' || c == ' ') {
+            v.push(("in-indent", i));
+            v.push(("in-indent", next));
+        }
+        indent = (c == '\n' && !in_br) || (indent && (c == '\t' || c == ' '));
+    }
+    v.sort();
+    v.dedup();
+    v
+}
+
+fn awkward_run(rng: &mut Rng) -> String {
+    let n = match rng.below(8) {
+        0 => 2,
+        1 => 3,
+        _ => 1,
+    };
+    let first = *rng.pick(AWKWARD);
+    (0..n).map(|k| if k == 0 || rng.chance(1, 2) { first } else { *rng.pick(AWKWARD) }).collect()
+}
+
+/// insertion of awkward characters at ONE boundary of a randomly chosen kind (the kind is drawn
+/// first, so that rare boundaries are hit as often as frequent ones)
+fn boundary_insert(rng: &mut Rng, s: &mut String) -> &'static str {
+    let b = boundaries(s);
+    let kinds: Vec<&'static str> = BOUNDARY_KINDS.iter().copied().filter(|k| b.iter().any(|(x, _)| x == k)).collect();
+    let kind = *rng.pick(&kinds);
+    let pos: Vec<usize> = b.iter().filter(|(x, _)| *x == kind).map(|(_, p)| *p).collect();
+    let p = *rng.pick(&pos);
+    s.insert_str(p, &awkward_run(rng));
+    "boundary-insert"
+}
+
+/// the same awkward character at EVERY boundary of one kind
+fn boundary_insert_all(rng: &mut Rng, s: &mut String) -> &'static str {
+    let b = boundaries(s);
+    let kinds: Vec<&'static str> = BOUNDARY_KINDS.iter().copied().filter(|k| b.iter().any(|(x, _)| x == k)).collect();
+    let kind = *rng.pick(&kinds);
+    let a = *rng.pick(AWKWARD);
+    *s = insert_at_all(s, &b, kind, a, None);
+    "boundary-insert-all"
+}
+
+/// `which`: `None` = every boundary of `kind`, `Some(k)` = only the k-th (from the end if negative)
+fn insert_at_all(s: &str, b: &[(&'static str, usize)], kind: &str, a: &str, which: Option<i64>) -> String {
+    let mut pos: Vec<usize> = b.iter().filter(|(x, _)| *x == kind).map(|(_, p)| *p).collect();
+    if let Some(k) = which {
+        let i = if k >= 0 { k as usize } else { pos.len().wrapping_sub((-k) as usize) };
+        pos = pos.get(i).copied().into_iter().collect();
+    }
+    let mut o = String::with_capacity(s.len() + pos.len() * a.len());
+    let mut last = 0;
+    for p in pos {
+        o.push_str(&s[last..p]);
+        o.push_str(a);
+        last = p;
+    }
+    o.push_str(&s[last..]);
+    o
+}
+
+/// one blank / tab / newline of the text replaced by an awkward character
+fn blank_replace(rng: &mut Rng, s: &mut String) -> &'static str {
+    let occ: Vec<(usize, usize)> = s.char_indices().filter(|(_, c)| matches!(c, ' ' | '\t' | '\n')).map(|(i, c)| (i, c.len_utf8())).collect();
+    if !occ.is_empty() {
+        let (i, l) = *rng.pick(&occ);
+        s.replace_range(i..i + l, *rng.pick(AWKWARD));
+    }
+    "blank-replace"
+}
+
+/// systematic part of `c14-ndl`: every awkward character at the first, at the last and at all
+/// boundaries of every kind of one valid text per layout
+fn boundary_sweep() -> Vec<(String, Vec<String>)> {
+    let base = "[Networks]\n\t[Network id='1' name='n']\n\t\t[IP range='1.2.3.4-5']\n[Machines]\n\t[Machine name='m' count='2']\n\t\t[Networks]\n\t\t\t[Network id='1']\n\t\t[Protocols]\n\t\t\t[Protocol name='UDP']\n\t\t[Applications]\n\t\t\t[Application name='capture' message='a b']\n";
+    let mut v = vec![];
+    for (lay, text) in [("tabs", base.to_string()), ("spaces", base.replace('\t', "    ")), ("crlf", base.replace('\n', "\r\n"))] {
+        let b = boundaries(&text);
+        for kind in BOUNDARY_KINDS {
+            let mut texts = vec![];
+            for a in AWKWARD {
+                for which in [Some(0), Some(1), Some(-1), None] {
+                    let t = insert_at_all(&text, &b, kind, a, which);
+                    if t != text && !texts.contains(&t) {
+                        texts.push(t);
+                    }
+                }
+            }
+            v.push((format!("{}.{}", lay, kind), texts));
+        }
+    }
+    v
+}
+
 /// one random edit; returns its label
 fn mutate_once(rng: &mut Rng, s: &mut String) -> &'static str {
     let starts = char_starts(s);
     let lines = line_spans(s);
     let pick_pos = |rng: &mut Rng| -> usize { starts[rng.below(starts.len() as u64) as usize] };
-    match rng.below(16) {
+    match rng.below(20) {
+        16 | 17 => boundary_insert(rng, s),
+        18 => boundary_insert_all(rng, s),
+        19 => blank_replace(rng, s),
         0 | 1 => {
             let p = pick_pos(rng);
             s.insert_str(p, *rng.pick(TOKENS));
@@ -1066,6 +1241,21 @@ fn case_mutants(cx: &mut Cx, rng: &mut Rng, per_case: u64) {
         if s.chars().any(|c| !c.is_ascii()) {
             cx.out.count("text.non-ascii");
         }
+        // measured reach of the boundary operators: a multi-byte character directly after a `]`,
+        // directly before a `[`, directly after a `[`
+        let cs: Vec<char> = s.chars().collect();
+        if cs.windows(2).any(|w| w[0] == ']' && w[1].len_utf8() > 1) {
+            cx.out.count("text.multibyte-after-close");
+        }
+        if cs.windows(2).any(|w| w[0] == ']' && w[1].len_utf8() > 1 && w[1].is_whitespace()) {
+            cx.out.count("text.multibyte-blank-after-close");
+        }
+        if cs.windows(2).any(|w| w[1] == '[' && w[0].len_utf8() > 1) {
+            cx.out.count("text.multibyte-before-open");
+        }
+        if cs.windows(2).any(|w| w[0] == '[' && w[1].len_utf8() > 1) {
+            cx.out.count("text.multibyte-after-open");
+        }
         cx.out.mark_nontrivial();
         exec_line(cx, &format!("parse {}", hx(&s)));
     }
@@ -1158,6 +1348,19 @@ fn run_parse_like(args: &Args, c14: bool) {
         cx.out.end_case();
         c += 1;
     }
+    if c14 {
+        // every awkward character at every kind of structural boundary of a valid text
+        for (name, texts) in boundary_sweep() {
+            cx.out.begin_case(c);
+            cx.out.mark_nontrivial();
+            cx.out.count_n(&format!("sweep.{}", name), texts.len() as u64);
+            for t in texts {
+                exec_line(&mut cx, &format!("parse {}", hx(&t)));
+            }
+            cx.out.end_case();
+            c += 1;
+        }
+    }
     let per_case: u64 = args.extra.get("mutants").and_then(|v| v.parse().ok()).unwrap_or(8);
     for _ in 0..args.cases {
         let mut r = rng.fork();
@@ -1179,7 +1382,7 @@ fn run_parse_like(args: &Args, c14: bool) {
     }
     drop(cx);
     lowercase_assumption(&mut out);
-    out.finish(if c14 { "texts: valid renderings (three layouts) of generated trees with 1..3 random edits each: token/char insertion and deletion, truncation, per-line and whole-file indentation changes (tabs, 4 spaces, mixed, partial), CRLF, line duplication/deletion/move, type-tag replacement (incl. IPtype, U+212A spellings, case flips), blank lines / trailing whitespace / missing final newline, argument edits (duplicates, empty, unquoted, unterminated, backslashes), non-ASCII insertion (multi-byte chars, chars whose low byte is a separator), very deep indentation; plus 43 hand-made texts; oracle: never a panic; every case counts as non-trivial; distinct = hash of the op lines" } else { RULE_PARSE });
+    out.finish(if c14 { "texts: valid renderings (three layouts) of generated trees with 1..3 random edits each: token/char insertion and deletion, truncation, per-line and whole-file indentation changes (tabs, 4 spaces, mixed, partial), CRLF, line duplication/deletion/move, type-tag replacement (incl. IPtype, U+212A spellings, case flips), blank lines / trailing whitespace / missing final newline, argument edits (duplicates, empty, unquoted, unterminated, backslashes), non-ASCII insertion (multi-byte chars, chars whose low byte is a separator), very deep indentation, boundary operators (1..3 characters of a table of 33 awkward code points -- ASCII blanks/controls other than space/tab/newline, every multi-byte White_Space character, BOM / zero-width characters, case-folding specials, combining marks, low-byte separators, 4-byte characters -- inserted at one or at all structural boundaries of one kind: text start/end, before/after `[` and `]`, inside/after the tag, around `=`, quotes and argument separators, line end/start, inside the indentation; a blank/tab/newline replaced by such a character); first 43 hand-made texts and a systematic sweep (every awkward character x every boundary kind x first/second/last/all positions x three layouts of one valid text); oracle: never a panic; every case counts as non-trivial; distinct = hash of the op lines" } else { RULE_PARSE });
 }
 
 pub fn run(args: &Args) {
